@@ -914,3 +914,105 @@ pub fn gen_builtins(rec: &mut Recorder, rng: &mut StdRng, n: usize) {
                         "res": res_json(&r), "post": post, "log": []}));
     }
 }
+
+// ------------------------------------------------------------------------------------------------
+// generator "literals": random integer, float and string literals in every standard rendering, alone and
+// glued between other tokens (C06)
+// ------------------------------------------------------------------------------------------------
+pub fn gen_literals(rec: &mut Recorder, rng: &mut StdRng, n: usize) {
+    let c = HashMapContext::<DefaultNumericTypes>::new();
+    rec.emit(json!({"ev": "ctx", "slot": 0, "ctx": ctx_json(&[], &[], false)}));
+    for k in 0..n {
+        let lit: String = match k % 3 {
+            0 => {
+                // an integer in [0, 2^63): decimal or hexadecimal, sometimes with leading zeros
+                let v: i64 = match rng.gen_range(0..4) {
+                    0 => rng.gen::<i64>() & i64::MAX,
+                    1 => (rng.gen::<i64>() & i64::MAX) >> rng.gen_range(0..63),
+                    2 => i64::MAX - rng.gen_range(0..3),
+                    _ => rng.gen_range(0..1000),
+                };
+                match rng.gen_range(0..5) {
+                    0 => format!("0x{:x}", v),
+                    1 => format!("0x{:X}", v),
+                    2 => format!("0x00{:x}", v),
+                    3 => format!("00{}", v),
+                    _ => v.to_string(),
+                }
+            },
+            1 => {
+                // a finite non-negative double in one of the standard renderings
+                let x: f64 = loop {
+                    let y = match rng.gen_range(0..4) {
+                        0 => f64::from_bits(rng.gen::<u64>() & !(1u64 << 63)),
+                        1 => (rng.gen_range(0..100000) as f64) / 64.0,
+                        2 => (rng.gen::<u32>() as f64) * 10f64.powi(rng.gen_range(-30..30)),
+                        _ => rng.gen_range(0..50) as f64,
+                    };
+                    if y.is_finite() {
+                        break y;
+                    }
+                };
+                let sci = format!("{:e}", x); // e.g. 1.5e-7, 3e0
+                let r = match rng.gen_range(0..9) {
+                    0 => format!("{:?}", x),                                   // shortest round trip, always with . or e
+                    1 => sci.clone(),
+                    2 => sci.replace("e-", "E-").replace('e', "E"),
+                    3 => if sci.contains("e-") { sci.clone() } else { sci.replace('e', "e+") },
+                    4 => if sci.contains("e-") { sci.replace('e', "E") } else { sci.replace('e', "E+") },
+                    5 => {
+                        let f = format!("{:?}", x);
+                        if let Some(rest) = f.strip_prefix("0.") { format!(".{rest}") } else { f }         // leading dot
+                    },
+                    6 => {
+                        let f = format!("{:?}", x);
+                        if let Some(head) = f.strip_suffix(".0") { format!("{head}.") } else { f }           // trailing dot
+                    },
+                    7 => format!("{:.3}", x.min(1e15)),                                                      // fixed
+                    _ => format!("{}", x),                                       // Display: integral values look like integers
+                };
+                r
+            },
+            _ => quote(&rand_string(rng)),
+        };
+        // float-looking words for the specification's lexer
+        for part in candidate_words(&lit) {
+            if part.chars().any(|c| c.is_ascii_digit()) && part.chars().all(|c| c.is_ascii_digit() || ".eE+-".contains(c)) {
+                rec.words.push(part);
+            }
+        }
+        let src = match rng.gen_range(0..6) {
+            0 | 1 => lit.clone(),
+            2 => format!("{lit}-{lit}"),
+            3 => format!("a-{lit}"),
+            4 => format!("({lit},{lit})"),
+            _ => format!("x={lit};x"),
+        };
+        for w in src.split(|c: char| "=;(),".contains(c)) {
+            for part in candidate_words(w) {
+                if part.chars().any(|c| c.is_ascii_digit()) && part.chars().all(|c| c.is_ascii_digit() || ".eE+-".contains(c)) {
+                    rec.words.push(part);
+                }
+            }
+        }
+        let tree = guard(|| build_operator_tree::<DefaultNumericTypes>(&src));
+        let mut ev = json!({"ev": "build", "src": cps(&src), "deficient": false});
+        match &tree {
+            Ok(Ok(t)) => {
+                ev["res"] = json!({"p": "val", "v": enc_value(&Value::Empty), "e": no_err()});
+                ev["tree"] = enc_tree(&normalise(t));
+            },
+            Ok(Err(e)) => ev["res"] = json!({"p": "err", "v": enc_value(&Value::Empty), "e": enc_error(e)}),
+            Err(p) => ev["res"] = json!({"p": "panic", "v": enc_value(&Value::Empty), "e": no_err(), "panic": p}),
+        }
+        rec.emit(ev);
+        // and evaluated where no arithmetic on floats is involved
+        if !src.contains('-') || lit.starts_with('"') {
+            let r = guard(|| eval_with_context(&src, &c));
+            if !src.starts_with("x=") {
+                rec.emit(json!({"ev": "eval", "slot": 0, "src": cps(&src), "level": "string", "ek": "value", "mode": "imm",
+                                "res": res_json(&r), "post": {"nb": false, "vars": [], "funcs": []}, "log": []}));
+            }
+        }
+    }
+}
